@@ -128,17 +128,10 @@ def parsePCase : List String → Option PCase
            data := ← Driver.unhex d, chunked := fr == "chunked" }
   | _ => none
 
-/-- The proxied body is drained by net/http's transport (32 KiB buffer reads until an error).
-A request with Content-Length 0 has its body dropped by createUpstreamRequest. -/
 def proxyModel (f : List String) : String :=
   match parsePCase f with
   | none => "bad-case"
-  | some c =>
-    if !c.chunked && c.data.isEmpty then "0\tok"
-    else
-      let u : Under := { data := c.data, script := [], errWithLast := false, endErr := .eof }
-      let t := serveBody c.cs (buildTable c.raw) c.path u (List.replicate (c.data.length + 2) 32768)
-      s!"{proxyStatus t}\tok"
+  | some c => s!"{proxyServe c.cs (buildTable c.raw) c.path c.data c.chunked}\tok"
 
 def proxyJudge (f : List String) (out : String) : String :=
   match parsePCase f, out.splitOn "\t" with
